@@ -40,15 +40,23 @@ NA_REASONS = {
 }
 
 NOT_BUILT = "simulation target per DESIGN.md §1 but its engine is not built/sound yet in this tree, so it is not claimed"
-for _p in "C14 C22 C23 C26 C27 C35 C36 C37 C39 C42 C44 C45 C46 C48 C50".split():
+for _p in "C14 C22 C23 C26 C27 C35 C36 C37 C39 C42 C44 C45 C46 C48".split():
     NA_REASONS[_p] = NOT_BUILT
 
 ENGINE_INFO = {
+    "E10-stream": {"path": "simkit/e10_stream.py", "serves_properties": ["C50"],
+                   "kind_free_text": "simulated short-reading input stream under the real Plex scanner; chunking-independence + reference matcher"},
     "E9-iotree": {"path": "simkit/e9_iotree.py", "serves_properties": ["C49"],
                   "kind_free_text": "seeded interleaving of writer tasks on the real StringIOTree/CCodeWriter vs list-of-holes model"},
 }
 
 CHECKS = {
+    "C50": {
+        "engine": "E10-stream", "level": "exploration", "design_ref": "DESIGN.md §4 E10",
+        "technique": "deterministic simulation of the scanner's input stream: seeded short-read chunkings (fault kind: short read / refill inside a token) of the same text must give identical token sequences; whole-read result checked against an independent reference matcher; shrinking to a minimal lexicon/text/chunking replay",
+        "text": "The real Plex pipeline (Regexps -> NFA -> DFA -> Scanner.read) is driven through its only I/O seam, the stream argument: a simulated stream returns seeded short chunks (every char, at newlines, random cuts, and texts crossing the 0x1000 refill). Oracle (a): (rule, text, line, col) sequence and end class are identical for every chunking, for generated lexicons and for the real Cython lexicon over tests/run files. Oracle (b): for generated lexicons the whole-read result equals a set-based reference matcher over the scanner's symbol stream (longest match, earliest rule on ties, UnrecognizedInput iff nothing matches). Sampling, not proof.",
+        "note": "SIM-part: clause (b) is input generation (labelled as such); it is there to say which chunking is right. Longest match is measured on the symbol stream including BOL/EOL/EOF symbols (the engine's own definition). Texts <= 14 chars (model) or 4090-8193 chars (chunking only); alphabet {a,b,c,A,B,newline}; <= 4 rules of depth <= 3. Exhaustive enumeration of strings up to length 5 (quantifier text) is not done.",
+    },
     "C49": {
         "engine": "E9-iotree", "level": "exploration", "design_ref": "DESIGN.md §4 E9",
         "technique": "deterministic simulation: seeded schedules of interleaved writer tasks and operation histories on the real buffer, refinement against a list-of-holes model after every step, ddmin-minimised replay",
